@@ -179,8 +179,49 @@ class ComputeTypeVisitor(Visitor.DefaultVisitor):
                 expr.SetType(expr.GetOperator().GetReturnType())
             elif isinstance(expr, ast.AffixExpression):
                 expr.SetType(expr.children[0].GetType())
+            elif isinstance(expr, ast.ConstructPrimitiveExpression):
+                self._ValidateConstructor(expr)
 
         return expr.GetType()
+
+    def _ValidateConstructor(self, expr):
+        """The arguments of T(...) must supply exactly the components of T:
+        one scalar for a scalar, scalars and vectors adding up to the size of
+        a vector, one row vector per row of a matrix."""
+        target = expr.GetType()
+        arguments = [a.GetType() for a in expr.GetArguments()]
+
+        def Fail(argumentType=None):
+            Errors.ERROR_INCOMPATIBLE_TYPES.Raise(argumentType, target)
+
+        for argumentType in arguments:
+            if not argumentType.IsPrimitive():
+                Fail(argumentType)
+
+        if target.IsScalar():
+            if len(arguments) != 1 or not arguments[0].IsScalar():
+                Fail(arguments[0] if arguments else None)
+        elif target.IsVector():
+            count = 0
+            for argumentType in arguments:
+                if argumentType.IsScalar():
+                    count += 1
+                elif argumentType.IsVector():
+                    count += argumentType.GetComponentCount()
+                else:
+                    Fail(argumentType)
+            if count != target.GetComponentCount():
+                Fail(arguments[0] if arguments else None)
+        elif target.IsMatrix():
+            if len(arguments) != target.GetRowCount():
+                Fail(arguments[0] if arguments else None)
+            for argumentType in arguments:
+                if (
+                    not argumentType.IsVector()
+                    or argumentType.GetComponentCount()
+                    != target.GetColumnCount()
+                ):
+                    Fail(argumentType)
 
     def v_VariableDeclaration(self, decl, ctx):
         assert isinstance(decl, ast.VariableDeclaration)
